@@ -18,11 +18,15 @@ CONSTANTS MaxOps, EmitFrom
 Items == {"wv1", "wp1", "wp1b", "wc1", "wh1", "wf1", "wf1b", "wf2", "wm1", "wfa", "wfam", "wfb", "wfm", "wfc", "wi1", "wca", "wcb", "wg1", "wg1a", "wg1b", "wpk",
           \* flavors whose names sort against their inheritance (the child first, an unrelated one between), a list as the default of
           \* an inherited variable, a generic function with daemons next to its primary method
-          "wzb", "wzo", "wac", "wfl", "wfl2", "wg2", "wg2p", "wg2b", "wg2a"}
+          "wzb", "wzo", "wac", "wfl", "wfl2", "wg2", "wg2p", "wg2b", "wg2a",
+          \* classes without accessors (their load forms can be evaluated, see finding C19-F16) with a generic function of two
+          \* required parameters and an :around method, a lambda as the value of a variable
+          "wcn", "wcn2", "wg3", "wg3a", "wg3b", "wl1"}
 Deps(i) == CASE i = "wp1b" -> {"wp1"} [] i = "wf1" -> {"wp1"} [] i = "wf1b" -> {"wf1"} [] i = "wf2" -> {"wf1"}
              [] i = "wfam" -> {"wfa"} [] i = "wfb" -> {"wfa"} [] i = "wi1" -> {"wfb"} [] i = "wfm" -> {"wfa"} [] i = "wfc" -> {"wfm"}
              [] i = "wcb" -> {"wca"} [] i = "wg1a" -> {"wca", "wg1"} [] i = "wg1b" -> {"wcb", "wg1a"}
-             [] i = "wac" -> {"wzb"} [] i = "wfl2" -> {"wfl"} [] i = "wg2p" -> {"wca", "wg2"} [] i = "wg2b" -> {"wg2p"} [] i = "wg2a" -> {"wg2p"}
+             [] i = "wac" -> {"wzb"} [] i = "wfl2" -> {"wfl"} [] i = "wg2p" -> {"wg2"} [] i = "wg2b" -> {"wg2p"} [] i = "wg2a" -> {"wg2p"}
+             [] i = "wcn2" -> {"wcn"} [] i = "wg3a" -> {"wcn", "wg3"} [] i = "wg3b" -> {"wcn2", "wg3"}
              [] OTHER -> {}
 Text(i) == CASE i = "wv1" -> "(defvar wv1 '(1 \"two\" (3 . 4) #\\c sym :kw))"
              [] i = "wp1" -> "(defparameter wp1 12)"
@@ -50,9 +54,15 @@ Text(i) == CASE i = "wv1" -> "(defvar wv1 '(1 \"two\" (3 . 4) #\\c sym :kw))"
              [] i = "wfl" -> "(defflavor wfl ((lst '(1 2)) (n 0)) () :gettable-instance-variables)"
              [] i = "wfl2" -> "(defflavor wfl2 ((n 5)) (wfl) :gettable-instance-variables)"
              [] i = "wg2" -> "(progn (defvar wg2-trace nil) (defgeneric wg2 (o)))"
-             [] i = "wg2p" -> "(defmethod wg2 ((o wca)) (list 'p (wca-x o)))"
-             [] i = "wg2b" -> "(defmethod wg2 :before ((o wca)) (setq wg2-trace (cons 'b wg2-trace)))"
-             [] i = "wg2a" -> "(defmethod wg2 :after ((o wca)) (setq wg2-trace (cons 'a wg2-trace)))"
+             [] i = "wg2p" -> "(defmethod wg2 ((o fixnum)) (list 'p o))"
+             [] i = "wg2b" -> "(defmethod wg2 :before ((o fixnum)) (setq wg2-trace (cons 'b wg2-trace)))"
+             [] i = "wg2a" -> "(defmethod wg2 :after ((o fixnum)) (setq wg2-trace (cons 'a wg2-trace)))"
+             [] i = "wcn" -> "(defclass wcn () ((z :initarg :z :initform 7) (w :initform '(1 2))))"
+             [] i = "wcn2" -> "(defclass wcn2 (wcn) ((v :initarg :v :initform \"v\")))"
+             [] i = "wg3" -> "(defgeneric wg3 (o p))"
+             [] i = "wg3a" -> "(defmethod wg3 ((o wcn) (p fixnum)) (list 'n (slot-value o 'z) p))"
+             [] i = "wg3b" -> "(defmethod wg3 :around ((o wcn2) (p t)) (cons 'around (call-next-method o p)))"
+             [] i = "wl1" -> "(defvar wl1 (lambda (x) (* x 3)))"
              [] i = "wpk" -> "(progn (defpackage \"wpk\" (:use \"common-lisp\") (:export \"pf\")) (in-package \"wpk\") (defun pf (x) (list 'pf x)) (in-package \"common-lisp-user\"))"
 \* the probes: Lisp text, evaluated and printed with prin1 (an error is the text "error")
 Probes == <<"wv1", "wp1", "wc1", "(gethash 'k wh1)", "(gethash \"s\" wh1)", "(hash-table-count wh1)", "(wf1 5)", "(wf1 1)", "(wf1 2 4)", "(wf2 1)", "(wf2 1 7 :c 8)", "(wm1 4)",
@@ -61,7 +71,9 @@ Probes == <<"wv1", "wp1", "wc1", "(gethash 'k wh1)", "(gethash \"s\" wh1)", "(ha
             "(wg1 (make-instance 'wca))", "(wg1 (make-instance 'wcb :x 2))", "(wpk:pf 3)",
             "(send (make-instance 'waa-child) :q)", "(send (make-instance 'waa-child) :s)", "(send (make-instance 'wzy-other) :r)",
             "(send (make-instance 'wfl2) :lst)", "(send (make-instance 'wfl2) :n)",
-            "(wg2 (make-instance 'wca))", "(progn (setq wg2-trace nil) (wg2 (make-instance 'wca)) wg2-trace)">>
+            "(wg2 5)", "(progn (setq wg2-trace nil) (wg2 5) wg2-trace)",
+            "(slot-value (make-instance 'wcn) 'z)", "(slot-value (make-instance 'wcn2 :z 1) 'w)", "(slot-value (make-instance 'wcn2) 'v)",
+            "(wg3 (make-instance 'wcn) 4)", "(wg3 (make-instance 'wcn2 :z 1) 4)", "(funcall wl1 4)">>
 Wp(d) == IF "wp1b" \in d THEN 40 ELSE 12
 Wf1(d, x) == IF "wf1b" \in d THEN (IF x * 3 < 10 THEN x * 3 ELSE x * 3 - 1) ELSE x + Wp(d)
 Num(n) == IF n = 0 THEN "0" ELSE LET RECURSIVE ds(_)
@@ -102,26 +114,57 @@ Expected(d, p) ==
     [] p = "(send (make-instance 'wzy-other) :r)" -> IF has("wzo") THEN "2" ELSE err
     [] p = "(send (make-instance 'wfl2) :lst)" -> IF has("wfl2") THEN "(1 2)" ELSE err
     [] p = "(send (make-instance 'wfl2) :n)" -> IF has("wfl2") THEN "5" ELSE err
-    [] p = "(wg2 (make-instance 'wca))" -> IF has("wg2p") THEN "(p 5)" ELSE err
+    [] p = "(slot-value (make-instance 'wcn) 'z)" -> IF has("wcn") THEN "7" ELSE err
+    [] p = "(slot-value (make-instance 'wcn2 :z 1) 'w)" -> IF has("wcn2") THEN "(1 2)" ELSE err
+    [] p = "(slot-value (make-instance 'wcn2) 'v)" -> IF has("wcn2") THEN "\"v\"" ELSE err
+    [] p = "(wg3 (make-instance 'wcn) 4)" -> IF has("wg3a") THEN "(n 7 4)" ELSE err
+    \* the :around method of the subclass wraps the primary method of the class; without a primary method there is nothing to call
+    [] p = "(wg3 (make-instance 'wcn2 :z 1) 4)" -> IF has("wg3a") /\ has("wcn2") THEN (IF has("wg3b") THEN "(around n 1 4)" ELSE "(n 1 4)") ELSE err
+    [] p = "(funcall wl1 4)" -> IF has("wl1") THEN "12" ELSE err
+    [] p = "(wg2 5)" -> IF has("wg2p") THEN "(p 5)" ELSE err
     \* the :before daemon runs before and the :after daemon after the primary method: each pushes its mark
-    [] p = "(progn (setq wg2-trace nil) (wg2 (make-instance 'wca)) wg2-trace)" ->
+    [] p = "(progn (setq wg2-trace nil) (wg2 5) wg2-trace)" ->
          IF ~has("wg2p") THEN err
          ELSE IF has("wg2b") /\ has("wg2a") THEN "(a b)" ELSE IF has("wg2b") THEN "(b)" ELSE IF has("wg2a") THEN "(a)" ELSE "nil"
+
+\* ---- the objects of a session and their load forms ------------------------------------------------------------------------
+\* Every definition item belongs to one object that offers a load form (make-load-form): the value of a variable, a
+\* function, a macro, a flavor (with its methods), an instance, a class, a generic function (with its methods), a package
+\* and the function defined in it.  anchor: the item that creates the object; expr: the Lisp expression whose value is given
+\* to make-load-form; the text evaluated in the fresh session is pre \o <pretty-printed load form> \o post.  The sequence is
+\* in an order in which the objects can be rebuilt (what an object refers to comes before it).  The world after evaluating
+\* the load forms of all objects of a session must answer every probe as the session itself does.
+Obj(a, e, pre, post) == [anchor |-> a, expr |-> e, pre |-> pre, post |-> post]
+Objs == << Obj("wv1", "'wv1", "(defvar wv1 ", ")"), Obj("wp1", "'wp1", "(defparameter wp1 ", ")"), Obj("wc1", "'wc1", "(defconstant wc1 ", ")"),
+           Obj("wh1", "'wh1", "(defvar wh1 ", ")"), Obj("wl1", "'wl1", "(defvar wl1 ", ")"), Obj("wf1", "'wf1", "", ""), Obj("wf2", "'wf2", "", ""), Obj("wm1", "'wm1", "", ""),
+           Obj("wfa", "'wfa", "", ""), Obj("wfb", "'wfb", "", ""), Obj("wfm", "'wfm", "", ""), Obj("wfc", "'wfc", "", ""),
+           Obj("wzb", "'wzz-base", "", ""), Obj("wzo", "'wzy-other", "", ""), Obj("wac", "'waa-child", "", ""),
+           Obj("wfl", "'wfl", "", ""), Obj("wfl2", "'wfl2", "", ""), Obj("wi1", "wi1", "(defvar wi1 ", ")"),
+           Obj("wca", "'wca", "", ""), Obj("wcb", "'wcb", "", ""), Obj("wcn", "'wcn", "", ""), Obj("wcn2", "'wcn2", "", ""),
+           Obj("wg1", "'wg1", "", ""), Obj("wg3", "'wg3", "", ""),
+           Obj("wg2", "'wg2-trace", "(defvar wg2-trace ", ")"), Obj("wg2", "'wg2", "", ""),
+           Obj("wpk", "(find-package \"wpk\")", "", ""), Obj("wpk", "'wpk::pf", "(in-package \"wpk\") ", " (in-package \"common-lisp-user\")") >>
+ObjsOf(d) == SelectSeq(Objs, LAMBDA o : o.anchor \in d)
+\* every item is carried by an object whose anchor it needs (directly or not): nothing of a session is outside the objects
+RECURSIVE Needs(_)
+Needs(i) == {i} \cup UNION {Needs(j) : j \in Deps(i)}
+ObjsCover == \A i \in Items : \E k \in 1..Len(Objs) : Objs[k].anchor \in Needs(i)
 
 VARIABLES defined, hist
 Init == defined = {} /\ hist = <<>>
 Define(i) == /\ i \notin defined /\ Deps(i) \subseteq defined
              /\ defined' = defined \cup {i} /\ hist' = Append(hist, i)
 Next == Len(hist) < MaxOps /\ \E i \in Items : Define(i)
-Case(h) == [items |-> h, forms |-> [k \in 1..Len(h) |-> Text(h[k])], probes |-> Probes]
+Case(h) == [items |-> h, forms |-> [k \in 1..Len(h) |-> Text(h[k])], probes |-> Probes, objs |-> ObjsOf({h[k] : k \in 1..Len(h)})]
 Emit == Len(hist') < EmitFrom \/ PrintT(ToJson(Case(hist')))
 EmitState == Len(hist) < EmitFrom \/ PrintT(ToJson(Case(hist)))
 \* directed sessions: every group of items that belong together (a function with its redefinitions, a flavor family, a
 \* class hierarchy with its generic function, a generic function with its daemons ...) defined completely, and every two groups
 \* one after the other
 Groups == {<<"wp1", "wp1b", "wf1", "wf1b", "wf2">>, <<"wfa", "wfam", "wfb", "wi1", "wfm", "wfc">>, <<"wzb", "wzo", "wac">>, <<"wfl", "wfl2">>,
-           <<"wca", "wcb", "wg1", "wg1a", "wg1b">>, <<"wca", "wg2", "wg2p", "wg2b", "wg2a">>, <<"wca", "wg2", "wg2p", "wg2a", "wg2b">>,
-           <<"wv1", "wc1", "wh1", "wm1", "wpk">>}
+           <<"wca", "wcb", "wg1", "wg1a", "wg1b">>, <<"wg2", "wg2p", "wg2b", "wg2a">>, <<"wg2", "wg2p", "wg2a", "wg2b">>,
+           <<"wcn", "wcn2", "wg3", "wg3a", "wg3b">>, <<"wcn", "wcn2", "wg3", "wg3b", "wg3a">>,
+           <<"wv1", "wc1", "wh1", "wm1", "wpk", "wl1">>}
 InS(x, q) == \E j \in 1..Len(q) : q[j] = x
 Merge(g, h) == g \o SelectSeq(h, LAMBDA x : ~InS(x, g))
 DirectedSessions == Groups \cup {Merge(g, h) : g \in Groups, h \in Groups}
@@ -132,5 +175,5 @@ EmitDirected == PrintT(ToJson(Case(hist)))
 DirectedOK == \A q \in DirectedSessions : \A j \in 1..Len(q) : Deps(q[j]) \subseteq {q[k] : k \in 1..(j - 1)}
 View == defined
 \* design: whatever is defined, every probe has a value (the table is total), and definitions only add
-Total == \A p \in {Probes[k] : k \in 1..Len(Probes)} : Expected(defined, p) # ""
+Total == ObjsCover /\ \A p \in {Probes[k] : k \in 1..Len(Probes)} : Expected(defined, p) # ""
 =============================================================================
